@@ -469,7 +469,9 @@ RunLoop:
 				} else {
 					done = numIsLessThan(nextStart, stop) || numIsLessThan(start, nextStart)
 				}
-				if done {
+				// A NaN compares false with everything: the tests above would
+				// never end the loop.
+				if done || isNaN(nextStart) || isNaN(stop) {
 					nextStart = NilValue
 				}
 				setReg(regs, cells, startReg, nextStart)
@@ -516,7 +518,8 @@ RunLoop:
 				} else {
 					done, _ = isLessThan(start, stop)
 				}
-				if done {
+				// An integer loop whose limit is NaN does not run
+				if done || (tstart == IsInt && tstep == IsInt && isNaN(stop)) {
 					start = NilValue
 				}
 				setReg(regs, cells, startReg, start)
